@@ -11,6 +11,10 @@ CLAIMED = {
          'Machine-checked proof (Lean 4): roundtrip/unambiguity/UTF-8 validity for ALL byte strings by induction, with the six facts about the concrete 256-row table (regenerated from lua.py each run) discharged by kernel evaluation. The converters are hand-modelled and tied to the code by differential execution on all 65,792 strings of length <=2 plus random and malformed streams.',
          'Trusted: Lean kernel; gen_tables.py; CPython UTF-8 codec (model works on code points); correspondence is testing.',
          '5/C15'),
+ 'C18': ('Lean 4 proof: pointwise/list characterisation of write_cart_data by list lemmas + omega over the regenerated memory map; correspondence with compiled model',
+         'Machine-checked proof (Lean 4) that for EVERY memory contents, data and address a write inside 0x4300 yields flat[:a]++data++flat[a+len:], keeps all five region sizes, that a write past 0x4300 is rejected, and that any sequence of writes equals the flat-memory specification (induction over the history). The memory map is regenerated from game.py by ast on every run; the function is hand-modelled (Python slice-assignment semantics included) and tied to the code by differential execution on all boundary-centred (start,end) pairs, random writes and write sequences, plus a direct flat-memory oracle on the implementation.',
+         'Trusted: Lean kernel; gen_tables.py (ast extraction of memmap); bytearray slice semantics as modelled by pySlice/pySliceAssign; correspondence is testing.',
+         '5/C18'),
 }
 NOT_YET = 'check not built yet in this round (framework under construction); will be claimed when its Lean model, theorems and correspondence run'
 
